@@ -8,7 +8,7 @@ an abstract single-link machine (`WS`, `Op`, `applyOp`, `run`).  Here: what ANY 
 (`Sys.step`) does to the window view `C06.proj l.core = (window, congestion state, connected, heard)`
 of ANY link is a finite sequence of `C06.Op`s — and only of ops which the event's arm and the configured
 mode allow (`OpOk`: e.g. the time-based recovery only in housekeeping and only in enhanced mode, NAK
-charges and ACK rules only on uplink datagrams, `mark_for_recovery` never in housekeeping or a flush).  So every C06 theorem about `applyOp` / `run` is a theorem about the shell.
+charges and ACK rules only on uplink datagrams, `mark_for_recovery` never in a flush; in housekeeping only as the fallback of a failed socket re-creation).  So every C06 theorem about `applyOp` / `run` is a theorem about the shell.
 
 `WFrom ok Src l'`: the window view of `l'` is reachable by `ok`-ops from a source view that `Src`
 relates to `l'`'s conn id.  `wfrom_closed`: this survives every per-link operation (`Closed`), hence
@@ -22,13 +22,13 @@ open Srtla Srtla.Gen Srtla.Conn Srtla.Select Srtla.Rtt Srtla.Link Srtla.Sys Scal
 variable {F : Type} [Scalar F]
 
 /-- The ops an arm of the event loop can apply in the configured mode: liveness flags change anywhere;
-`mark_for_recovery` only on the data path of a client datagram (failed send) or on an uplink datagram
-(REG_ERR); `reset_for_reconnect` and the time-based recovery only in housekeeping, the latter only in
+`mark_for_recovery` only on the data path of a client datagram (failed send), on an uplink datagram
+(REG_ERR) or in housekeeping (fallback of a failed socket re-creation); `reset_for_reconnect` and the time-based recovery only in housekeeping, the latter only in
 enhanced mode; REG3, NAK charges and the ACK rules only on an uplink datagram, the classic ACK rule only
 in classic mode and the enhanced one only in enhanced mode. -/
 def OpOk (arm : Arm) (classic : Bool) : C06.Op → Prop
   | .setLink _ _ => True
-  | .resetRecovery => arm = .client ∨ arm = .uplink
+  | .resetRecovery => arm = .client ∨ arm = .uplink ∨ arm = .hk
   | .resetReconnect => arm = .hk
   | .reg3 => arm = .uplink
   | .recover _ _ => arm = .hk ∧ classic = false
